@@ -279,7 +279,8 @@ def main():
         "model_disagreements": n_dis,
         "oracle_failures": sum(len(g["oracle_failures"]) for g in groups),
         "rule": " | ".join(f"{g['group']}: {g['rule']}" for g in groups),
-        "groups": [{k: g[k] for k in ("group", "evaluations", "compared_with_model", "distinct_nontrivial", "histogram", "max_line_len", "wall_s")} for g in groups],
+        "groups": [dict({k: g[k] for k in ("group", "evaluations", "compared_with_model", "distinct_nontrivial", "histogram", "max_line_len", "wall_s")},
+                        unreproduced_timing_failures=len(g.get("unreproduced_timing_failures", []))) for g in groups],
         "samples": samples,
         "known_findings_listed": [k[1] for k in known],
         "fixed_findings": fixed,
